@@ -48,21 +48,25 @@ CHECKS: dict[str, dict] = {
         ref="5-C15",
     ),
     "C19": dict(
-        engine="spec/Percent.tla, spec/PercentTrace.tla",
+        engine="spec/Percent.tla, spec/PercentTrace.tla, spec/LiveCodebase.tla",
         text="TLC checks the rounding algorithm as coded (exact integer arithmetic) against the property's clauses (range, sum 100, within two points, "
              "non-zero shown) in every reachable quality profile with total <= T; every such profile is fed to the real Report.quality_profile_percentage(), "
              "a sample also through both print_summary renderers (figures and verdict sentence parsed back) and through real measurement lists; all recorded "
-             "calls plus random profiles with totals up to 10^7 are accepted by TLC against the property (PercentTrace.tla), not against the algorithm model.",
+             "calls plus random profiles with totals up to 10^7 are accepted by TLC against the property (PercentTrace.tla), not against the algorithm model. "
+             "LiveCodebase.tla: every history of add_file calls (new paths and paths already present) on ONE live Codebase with reads in between; every read "
+             "is accepted by PercentTrace.tla against the share of the entries held at that moment.",
         note="Profiles injected through report.quality_profile unless realisable; comparisons by cross-multiplication below 2^31. " + BASE_NOTE,
         technique="TLA+ model checked by TLC + exhaustive spec->code replay + TLC trace acceptance",
         ref="5-C19",
     ),
     "C02": dict(
-        engine="spec/Thresholds.tla, spec/ThresholdTrace.tla",
+        engine="spec/Thresholds.tla, spec/ThresholdTrace.tla, spec/LiveCodebase.tla",
         text="Thresholds.tla grows a codebase one function at a time over the boundary lengths {2,14..17,29..32,59..62} x 2 files/languages and carries the "
              "expected profile, counters, findings and check listing/count/exit/quiet behaviour as ghost state; every reachable state is rebuilt for real "
              "(Codebase/Report objects; real Python and C source files checked end-to-end by check_command) and compared; every single length 1..70 and "
-             "large values is fed to the 16 places in the code that re-implement the comparison and TLC judges each against Category(L) (ThresholdTrace.tla).",
+             "large values is fed to the 16 places in the code that re-implement the comparison and TLC judges each against Category(L) (ThresholdTrace.tla). "
+             "LiveCodebase.tla: every history of up to 3-4 add_file calls on ONE live Codebase with reads in between (profile, findings, counters, "
+             "measurements compared with the ghost expectation of each read).",
         note="Generated functions have exactly the chosen length (asserted via names in the listing). Internal helpers that no longer exist are skipped, "
              "end-to-end outputs are always judged. " + BASE_NOTE,
         technique="TLA+ state machine enumerated by TLC, every state replayed into the code + TLC trace acceptance",
